@@ -49,7 +49,7 @@ Ok (start, stop)
 Ok (VSlice start stop step)
 ).
 
-(* fragment g_posify_index from sparse/numba_backend/_slicing.py:posify_index selector=None srchash=6d7ae9a13bc23e83 *)
+(* fragment g_posify_index from sparse/numba_backend/_slicing.py:posify_index selector=None srchash=912feb1b77e3a718 *)
 Definition g_posify_index (shape : pyv) (ind : pyv) : res pyv :=
 t1_ <- Ok (VBool (isinst_tuple ind)) ;;
 if cond t1_ then (
@@ -67,24 +67,30 @@ Ok ind
 t6_ <- (t8_ <- Ok (VBool (isinst_array ind)) ;; if cond t8_ then (t7_ <- (py_isnan shape) ;; py_not t7_) else Ok t8_) ;;
 if cond t6_ then (
 ind <- Ok ind ;;
+ind <- (t9_ <- Ok (VBool (isinst_array ind)) ;; if cond t9_ then (
+ind <- Ok ind ;;
+Ok (ind)
+) else (
+Ok (ind)
+)) ;;
 ext_where_neg ind shape
 ) else (
-t9_ <- Ok (VBool (isinst_slice ind)) ;;
-if cond t9_ then (
-t10_ <- (attr_start ind) ;; t11_ <- (attr_stop ind) ;; t12_ <- (attr_step ind) ;; start <- Ok t10_ ;; stop <- Ok t11_ ;; step <- Ok t12_ ;; 
-start <- (t13_ <- (py_lt start (VInt (0))) ;; if cond t13_ then (
+t10_ <- Ok (VBool (isinst_slice ind)) ;;
+if cond t10_ then (
+t11_ <- (attr_start ind) ;; t12_ <- (attr_stop ind) ;; t13_ <- (attr_step ind) ;; start <- Ok t11_ ;; stop <- Ok t12_ ;; step <- Ok t13_ ;; 
+start <- (t14_ <- (py_lt start (VInt (0))) ;; if cond t14_ then (
 start <- (py_add start shape) ;;
 Ok (start)
 ) else (
 Ok (start)
 )) ;;
-stop <- (t14_ <- (py_lt stop (VInt (0))) ;; if cond t14_ then (
+stop <- (t15_ <- (py_lt stop (VInt (0))) ;; if cond t15_ then (
 stop <- (py_add stop shape) ;;
 Ok (stop)
 ) else (
 Ok (stop)
 )) ;;
-(t15_ <- (attr_step ind) ;; Ok (VSlice start stop t15_))
+(t16_ <- (attr_step ind) ;; Ok (VSlice start stop t16_))
 ) else (
 Ok ind
 )
